@@ -600,6 +600,49 @@ func genParFacts() {
 		}
 	}
 
+	// methods of Cursor (cursor.go): a cursor of an outer scope is reached from parallel evaluation — the cursor
+	// status expressions (evalCursorStatus / evalCursorAttribute → IsOpen, IsInRange, Count, Pointer) in a WHERE
+	// clause or select list, and FETCH / OPEN / CLOSE inside a user-defined function called from one.  Every
+	// method may run in several goroutines at once.
+	{
+		cur := newRegion("methods of Cursor reachable from parallel evaluation", token.NoPos)
+		for _, f := range p.Files {
+			for _, d := range f.Decls {
+				fd, ok := d.(*ast.FuncDecl)
+				if !ok || fd.Recv == nil || fd.Body == nil || len(fd.Recv.List[0].Names) != 1 {
+					continue
+				}
+				lbl := funcLabel(fd)
+				if !strings.HasPrefix(lbl, "Cursor.") {
+					continue
+				}
+				if _, isPtr := fd.Recv.List[0].Type.(*ast.StarExpr); !isPtr {
+					continue
+				}
+				if cur.pos == token.NoPos {
+					cur.pos = fd.Pos()
+				}
+				b := &wbody{label: lbl, multi: true}
+				cur.bodies = append(cur.bodies, b)
+				v := a.newVisitor(cur, b, lbl)
+				v.named = true
+				v.allowGo = true
+				v.methodPass = true
+				v.top = fd
+				v.shared[p.Info.Defs[fd.Recv.List[0].Names[0]]] = true
+				v.stmts(fd.Body.List)
+			}
+		}
+		// keep the accesses to the receiver's fields only
+		var kept []*access
+		for _, ac := range cur.acc {
+			if strings.Contains(ac.path, ".") {
+				kept = append(kept, ac)
+			}
+		}
+		cur.acc = kept
+	}
+
 	for _, r := range a.regions {
 		classify(r)
 	}
